@@ -6,80 +6,32 @@
 package key_certificate
 
 //@ import "github.com/go-i2p/common/certificate"
+//@ import i2pd "github.com/go-i2p/common/data"
 //@ import "github.com/go-i2p/crypto/types"
-
-// ---- the specification's tables (I2P common structures 0.9.67), written from
-// ---- the document, not from the code.  -1 = unknown / not assigned.
-
-//@ spec func SpecSigPubLen(t int) int {
-//@   switch t {
-//@   case 0: return 128
-//@   case 1: return 64
-//@   case 2: return 96
-//@   case 3: return 132
-//@   case 4: return 256
-//@   case 5: return 384
-//@   case 6: return 512
-//@   case 7: return 32
-//@   case 8: return 32
-//@   case 11: return 32
-//@   }
-//@   return -1
-//@ }
-
-//@ spec func SpecSigLen(t int) int {
-//@   switch t {
-//@   case 0: return 40
-//@   case 1: return 64
-//@   case 2: return 96
-//@   case 3: return 132
-//@   case 4: return 256
-//@   case 5: return 384
-//@   case 6: return 512
-//@   case 7: return 64
-//@   case 8: return 64
-//@   case 11: return 64
-//@   }
-//@   return -1
-//@ }
-
-//@ spec func SpecCryptoPubLen(t int) int {
-//@   switch t {
-//@   case 0: return 256
-//@   case 1: return 64
-//@   case 2: return 96
-//@   case 3: return 132
-//@   case 4: return 32
-//@   case 5: return 32
-//@   case 6: return 32
-//@   case 7: return 32
-//@   }
-//@   return -1
-//@ }
 
 // ---- size lookups: every one equals the specification's table for every int
 
 //@ contract GetSigningKeySize(signingType int) (size int, err error)
-//@   ensures @C10 (err == nil) == (SpecSigPubLen(signingType) >= 0)
-//@   ensures @C10 err == nil ==> size == SpecSigPubLen(signingType)
+//@   ensures @C10 (err == nil) == (i2pd.SpecSigPubLen(signingType) >= 0)
+//@   ensures @C10 err == nil ==> size == i2pd.SpecSigPubLen(signingType)
 //@   ensures err != nil ==> size == 0
 //@   modifies nothing
 
 //@ contract GetSignatureSize(signingType int) (size int, err error)
-//@   ensures @C10 (err == nil) == (SpecSigLen(signingType) >= 0)
-//@   ensures @C10 err == nil ==> size == SpecSigLen(signingType)
+//@   ensures @C10 (err == nil) == (i2pd.SpecSigLen(signingType) >= 0)
+//@   ensures @C10 err == nil ==> size == i2pd.SpecSigLen(signingType)
 //@   ensures err != nil ==> size == 0
 //@   modifies nothing
 
 //@ contract GetCryptoKeySize(cryptoType int) (size int, err error)
-//@   ensures @C10 (err == nil) == (SpecCryptoPubLen(cryptoType) >= 0)
-//@   ensures @C10 err == nil ==> size == SpecCryptoPubLen(cryptoType)
+//@   ensures @C10 (err == nil) == (i2pd.SpecCryptoPubLen(cryptoType) >= 0)
+//@   ensures @C10 err == nil ==> size == i2pd.SpecCryptoPubLen(cryptoType)
 //@   ensures err != nil ==> size == 0
 //@   modifies nothing
 
 //@ contract GetKeySizes(signingType int, cryptoType int) (info KeySizeInfo, err error)
-//@   ensures @C10 (err == nil) == (SpecSigPubLen(signingType) >= 0 && SpecCryptoPubLen(cryptoType) >= 0)
-//@   ensures @C10 err == nil ==> info.SignatureSize == SpecSigLen(signingType) && info.SigningPublicKeySize == SpecSigPubLen(signingType) && info.CryptoPublicKeySize == SpecCryptoPubLen(cryptoType)
+//@   ensures @C10 (err == nil) == (i2pd.SpecSigPubLen(signingType) >= 0 && i2pd.SpecCryptoPubLen(cryptoType) >= 0)
+//@   ensures @C10 err == nil ==> info.SignatureSize == i2pd.SpecSigLen(signingType) && info.SigningPublicKeySize == i2pd.SpecSigPubLen(signingType) && info.CryptoPublicKeySize == i2pd.SpecCryptoPubLen(cryptoType)
 //@   modifies nothing
 
 // ---- representation
@@ -108,23 +60,23 @@ package key_certificate
 
 //@ contract (keyCertificate KeyCertificate) SigningPublicKeySize() (size int)
 //@   requires len(keyCertificate.SpkType) == 2
-//@   ensures @C10 size == max0(SpecSigPubLen(u16(keyCertificate.SpkType)))
+//@   ensures @C10 size == max0(i2pd.SpecSigPubLen(u16(keyCertificate.SpkType)))
 //@   modifies nothing
 
 //@ contract (keyCertificate KeyCertificate) SignatureSize() (size int)
 //@   requires len(keyCertificate.SpkType) == 2
-//@   ensures @C10 size == max0(SpecSigLen(u16(keyCertificate.SpkType)))
+//@   ensures @C10 size == max0(i2pd.SpecSigLen(u16(keyCertificate.SpkType)))
 //@   modifies nothing
 
 //@ contract (keyCertificate KeyCertificate) CryptoSize() (size int)
 //@   requires len(keyCertificate.CpkType) == 2
-//@   ensures @C10 size == max0(SpecCryptoPubLen(u16(keyCertificate.CpkType)))
+//@   ensures @C10 size == max0(i2pd.SpecCryptoPubLen(u16(keyCertificate.CpkType)))
 //@   modifies nothing
 
 //@ contract (keyCertificate KeyCertificate) CryptoPublicKeySize() (size int, err error)
 //@   requires len(keyCertificate.CpkType) == 2
-//@   ensures @C10 (err == nil) == (SpecCryptoPubLen(u16(keyCertificate.CpkType)) >= 0)
-//@   ensures @C10 err == nil ==> size == SpecCryptoPubLen(u16(keyCertificate.CpkType))
+//@   ensures @C10 (err == nil) == (i2pd.SpecCryptoPubLen(u16(keyCertificate.CpkType)) >= 0)
+//@   ensures @C10 err == nil ==> size == i2pd.SpecCryptoPubLen(u16(keyCertificate.CpkType))
 //@   modifies nothing
 
 // ---- parsing
@@ -153,7 +105,7 @@ package key_certificate
 //@   requires len(keyCertificate.CpkType) == 2
 //@   ensures @C08 fresh(public_key.Bytes())
 //@   ensures @C10 (err == nil) == (len(data) >= 256 && (u16(keyCertificate.CpkType) == 0 || (4 <= u16(keyCertificate.CpkType) && u16(keyCertificate.CpkType) <= 7)))
-//@   ensures @C10 @C02 err == nil ==> public_key != nil && public_key.Len() == SpecCryptoPubLen(u16(keyCertificate.CpkType)) && seqeq(public_key.Bytes(), data[:SpecCryptoPubLen(u16(keyCertificate.CpkType))])
+//@   ensures @C10 @C02 err == nil ==> public_key != nil && public_key.Len() == i2pd.SpecCryptoPubLen(u16(keyCertificate.CpkType)) && seqeq(public_key.Bytes(), data[:i2pd.SpecCryptoPubLen(u16(keyCertificate.CpkType))])
 //@   ensures err != nil ==> public_key == nil
 //@   modifies nothing
 
@@ -162,7 +114,7 @@ package key_certificate
 //@ }
 
 //@ spec func sigKeyStart(t int, n int) int {
-//@   if (t == 0 || t == 1 || t == 2) && n >= 128 { return 128 - SpecSigPubLen(t) }
+//@   if (t == 0 || t == 1 || t == 2) && n >= 128 { return 128 - i2pd.SpecSigPubLen(t) }
 //@   return 0
 //@ }
 
@@ -170,7 +122,7 @@ package key_certificate
 //@   requires len(keyCertificate.SpkType) == 2
 //@   ensures @C08 fresh(signing_public_key.Bytes())
 //@   ensures @C10 (err == nil) == sigKeyOK(u16(keyCertificate.SpkType), len(data))
-//@   ensures @C10 @C02 err == nil ==> signing_public_key != nil && signing_public_key.Len() == SpecSigPubLen(u16(keyCertificate.SpkType)) && seqeq(signing_public_key.Bytes(), data[sigKeyStart(u16(keyCertificate.SpkType), len(data)):sigKeyStart(u16(keyCertificate.SpkType), len(data))+SpecSigPubLen(u16(keyCertificate.SpkType))])
+//@   ensures @C10 @C02 err == nil ==> signing_public_key != nil && signing_public_key.Len() == i2pd.SpecSigPubLen(u16(keyCertificate.SpkType)) && seqeq(signing_public_key.Bytes(), data[sigKeyStart(u16(keyCertificate.SpkType), len(data)):sigKeyStart(u16(keyCertificate.SpkType), len(data))+i2pd.SpecSigPubLen(u16(keyCertificate.SpkType))])
 //@   ensures err != nil ==> signing_public_key == nil
 //@   modifies nothing
 
@@ -178,7 +130,7 @@ package key_certificate
 //@   a, e1 := GetSigningKeySize(t)
 //@   b, e2 := GetSignatureSize(t)
 //@   assert((e1 == nil) == (e2 == nil))
-//@   assert(e1 == nil ==> a == SpecSigPubLen(t) && b == SpecSigLen(t))
+//@   assert(e1 == nil ==> a == i2pd.SpecSigPubLen(t) && b == i2pd.SpecSigLen(t))
 //@   c, e3 := GetCryptoKeySize(t)
 //@   i, e4 := GetKeySizes(t, t)
 //@   assert(e4 == nil ==> e1 == nil && e3 == nil && i.SigningPublicKeySize == a && i.SignatureSize == b && i.CryptoPublicKeySize == c)
